@@ -365,11 +365,14 @@ def process_fn(toks, it, fs: FnSpec, qual, ed: Edits, log, unit_in_trait_impl):
     start_pos = toks[it.first].pos
     # attributes go right before the item (after doc comments is not needed: before everything works)
     pre = f"/*@vx:begin {qual}*/ "
+    pre_attrs = ""
     if fs.mode == "trusted":
-        pre += "#[verifier::external_body] "
+        pre_attrs += "#[verifier::external_body] "
     for a in fs.attrs:
-        pre += a + " "
+        pre_attrs += a + " "
     ed.insert(start_pos, pre, prio=5)
+    if pre_attrs:
+        ed.insert(start_pos, pre_attrs, prio=9.5)     # after a `verus! {` opened at the same position, before `pub`
     ed.insert(toks[it.last].end, f" /*@vx:end {qual}*/", prio=-5)
     # named return value
     if sg.arrow >= 0 and fs.ret != "-":
